@@ -8,7 +8,7 @@ use crate::ir::value_meta::ValueEnvironment;
 use crate::ssa::traits::DirectedGraphNode;
 
 use crate::ir::variable_meta::{VariableMeta, VariableUses};
-use crate::ir::{Meta, Statement};
+use crate::ir::{Expression, Meta, Statement};
 
 type Index = usize;
 type IndexSet = HashSet<Index>;
@@ -141,7 +141,18 @@ impl BasicBlock {
     pub fn propagate_values(&mut self, env: &mut ValueEnvironment) -> bool {
         trace!("propagating values for basic block {}", self.index());
         let mut result = false;
+        let nof_predecessors = self.predecessors.len();
         for stmt in self.iter_mut() {
+            // Each predecessor contributes at most one argument to a phi
+            // expression. If there are fewer arguments than predecessors the
+            // variable may lack a definition on some path (a variable declared
+            // without an initializer is zero there), so the phi expression
+            // does not reduce to the common value of its arguments.
+            if let Statement::Substitution { rhe: Expression::Phi { args, .. }, .. } = stmt {
+                if args.len() < nof_predecessors {
+                    continue;
+                }
+            }
             result = result || stmt.propagate_values(env);
         }
         result
